@@ -420,6 +420,8 @@ REPS32_THOROUGH = ("00017f80818f909fa0bfc0c1c2c3dfe0e1ecedeeeff0f1f3f4f5f7f8fbfc
 REPS_STATES = "41808f909fa0bfc2e0f4"
 REPS64_QUICK = "4180bfc1c2"
 REPS64_THOROUGH = "4180bfc1c2e0f4"
+SWEEP64_QUICK = "417f80bfc0c1c2df"
+SWEEP64_THOROUGH = "417f808f909fa0bfc0c1c2dfe0edf0f4"
 
 
 def run(ctx, out):
@@ -657,9 +659,9 @@ def run(ctx, out):
     problems.sort(key=lambda p: (p["kind"] != "property", len(script_of([p["case"]]))))
     report(problems, "presentation corpus")
 
+    fast = C.cc_build("utf8_fast", srcs, sanitize=False, extra_flags=["-O2"])
     # ---- thorough: all 2^32 words, real code against the C reference automaton, 16 processes
     if ctx.thorough:
-        fast = C.cc_build("utf8_fast", srcs, sanitize=False, extra_flags=["-O2"])
         jobs = []
         nseg = 64
         seg = (1 << 32) // nseg
@@ -699,6 +701,44 @@ def run(ctx, out):
                               % (mism, wv), {"property": PID, "entry": "word32", "word": wv, "bytes_in_feed_order": hx(bs), "complete": k,
                                              "broken": "state after the call differs from the reference (verdict agrees)",
                                              "script": ["reset", "word32 %d %s" % (k, wv)]}, no_input=True)
+
+    # ---- 64-bit words: full product of 8 (quick) / 16 (thorough) byte classes, real code against the C reference
+    reps = SWEEP64_THOROUGH if ctx.thorough else SWEEP64_QUICK
+    total64 = (len(reps) // 2) ** 8
+    nseg = 64
+    seg = (total64 + nseg - 1) // nseg
+    jobs = ["sweep64 %s %x %x %d\n" % (reps, i * seg, min(total64, (i + 1) * seg), k) for k in (0, 1) for i in range(nseg)]
+
+    def sweep64(job):
+        return job, C.sh([fast], inp=job.encode(), timeout=1200)[1].strip()
+    with concurrent.futures.ThreadPoolExecutor(max_workers=C.NPROC) as ex:
+        res = list(ex.map(sweep64, jobs))
+    tot = acc = mism = 0
+    first = None
+    for job, o in res:
+        if not o.startswith("sweep64"):
+            raise RuntimeError("sweep64 failed: %r -> %r" % (job, o))
+        f = dict(x.split("=") for x in o.split()[1:])
+        tot += int(f["n"])
+        acc += int(f["acc"])
+        mism += int(f["mism"])
+        if int(f["mism"]) and first is None:
+            first = (f["first"], int(job.split()[4]))
+    cov["sweep64_class_product"] = {"reps": reps, "words": tot, "accepted": acc, "mismatches": mism,
+                                    "complete_product": tot == 2 * total64}
+    stats["evaluations"] += tot
+    if mism:
+        wv, k = first
+        bs = list(int(wv, 16).to_bytes(8, "little"))
+        probs = run_cases(side, [case_calls("sweep64-witness", [bs], bool(k), entry="word64")], stats)
+        pp = [p for p in probs if p["kind"] == "property"]
+        if pp:
+            report(pp[:1], "64-bit class product (%d mismatching words)" % mism)
+        else:
+            out.violation("64-bit class product: %d words where the real path and the reference automaton differ in the checker left behind; first %s"
+                          % (mism, wv), {"property": PID, "entry": "word64", "word": wv, "bytes_in_feed_order": hx(bs), "complete": k,
+                                         "broken": "state after the call differs from the reference (verdict agrees)",
+                                         "script": ["reset", "word64 %d %s" % (k, wv)]}, no_input=True)
 
     if side.aborts and not out.violations:
         out.violation("sanitizer abort in the harness", {"property": PID, "aborts": side.aborts[:3]}, no_input=True)
